@@ -5,6 +5,7 @@ package main
 import (
 	"fmt"
 	"go/types"
+	"sync"
 )
 
 // SlotKind is the register/heap width of one slot. 1 = bool (kept as SMT Bool in
@@ -41,13 +42,17 @@ func (k SlotKind) width() int {
 var heapWidths = [4]int{8, 16, 32, 64}
 
 type layoutCache struct {
-	m map[types.Type][]SlotKind
+	mu sync.Mutex
+	m  map[types.Type][]SlotKind
 }
 
 func newLayout() *layoutCache { return &layoutCache{m: map[types.Type][]SlotKind{}} }
 
 func (l *layoutCache) slots(T types.Type) []SlotKind {
-	if s, ok := l.m[T]; ok {
+	l.mu.Lock()
+	s, ok := l.m[T]
+	l.mu.Unlock()
+	if ok {
 		return s
 	}
 	var out []SlotKind
@@ -94,7 +99,9 @@ func (l *layoutCache) slots(T types.Type) []SlotKind {
 	default:
 		panic(fmt.Sprintf("layout: type %T %v", T, T))
 	}
+	l.mu.Lock()
 	l.m[T] = out
+	l.mu.Unlock()
 	return out
 }
 
